@@ -461,6 +461,17 @@ pub fn judge(sc: &Scenario) -> Judgement {
         j.notes.push(format!("other-property=C19 emitted stream is not well-framed: {e}"));
         return j;
     }
+    // a panic of tokio itself because the code under test reached for a part of the runtime the
+    // simulator does not provide (I/O driver, blocking pool, ...) says nothing about the server
+    let unmodelled = |p: &PanicReport| {
+        p.message.contains("there is no reactor running")
+            || p.message.contains("must be called from the context of a Tokio")
+            || p.message.contains("no reactor running")
+    };
+    if rec.task_panics.iter().any(|(_, p)| unmodelled(p)) || matches!(&rec.end, Some(ProcessEnd::MainPanicked(p)) if unmodelled(p)) {
+        j.notes.push("harness-limitation: the code under test uses a tokio facility the simulator does not model (no reactor / blocking pool in the simulation)".into());
+        return j;
+    }
     // no actor panics
     for (task, p) in &rec.task_panics {
         let name = match task {
